@@ -48,7 +48,7 @@ theorem BULK_TARGET_eq : BULK_TARGET = 3064 := by decide
 structure KF where
   pl : Nat → Nat → Nat
   sl : Nat → Nat
-  /-- `false`: the code as it is.  `true`: the repair of finding F20 suggested in `notes/Q12_F20_suggested_fix.diff`
+  /-- `false`: the code as it is.  `true`: the repair of finding F22 suggested in `notes/Q12_F22_suggested_fix.diff`
   (`short_first_separator`): the first separator of the base, when it is shorter than the base's prefix (stored with 0
   bits), never becomes part of a `KeepChunk` or an `Update` — `push_chunk` of the builder would store it with
   `0 + (old prefix_len - new prefix_len)` bits under a shorter prefix although the gauge counted
@@ -302,7 +302,7 @@ def pushInsert (kf : KF) (st : St) (key pn : Nat) : Option St :=
   if !st.valid then none                                    -- `assert!(self.valid_gauge)`
   else some { st with gauge := st.gauge.ingestKey kf key (kf.sl key), ops := st.ops ++ [.ins key pn] }
 
-/-- `short_first_separator(base, pos)` of the suggested repair of F20 (`false` without it) -/
+/-- `short_first_separator(base, pos)` of the suggested repair of F22 (`false` without it) -/
 def shortFirst (kf : KF) (b : Base) (pos : Nat) : Option Bool :=
   if kf.canon && pos == 0 then (b.node.key 0).map fun k => decide (kf.sl k < b.node.pl) else some false
 
@@ -347,7 +347,7 @@ def pushChunkHead (kf : KF) (st : St) (b : Base) (s bce : Nat) : Option St :=
     | _, _ => none
   else some st
 
-/-- the first lines of `push_chunk` with the suggested repair of F20: a short first separator is pushed as an `Insert`
+/-- the first lines of `push_chunk` with the suggested repair of F22: a short first separator is pushed as an `Insert`
 and the chunk starts behind it -/
 def pushChunkShort (kf : KF) (st : St) (b : Base) (s e : Nat) : Option (St × Nat) :=
   if s < e then
